@@ -55,19 +55,53 @@ Fixpoint first_arm (sel : paint -> bool) (arms : list (string * string * parm)) 
 Lemma node_paints_is_source_arms sel n : first_arm sel paint_loop_arms n = Some (node_paints sel n).
 Proof. destruct n as [g|i v fl st|i sub|i fl ch]; reflexivity. Qed.
 
+(* Since the fix that made the collectors linear (37642ef) the test "is this definition in the list already" is
+   `seen.insert(Arc::as_ptr(x))` on a set of addresses instead of `!list.iter().any(|other| Arc::ptr_eq(x, other))`.
+   The model's `push_all ptr` (push x unless `ptr x` is among the addresses of the list) reads that test under the invariant
+   "seen = the addresses of the list", which holds because of the facts pinned below, all regenerated from the source:
+   every list starts empty (`tree_list_inits`), every set starts empty where the walk starts (`collector_calls`, the `let`s of
+   collect_paint_servers), the only operation on a set is the guarded insert whose success is followed by the push of that same
+   Arc (`collector_guards`, `collector_seen`), and the recursive calls hand the same list and the same set on (`collector_seen`).
+   `HashSet::insert` returns true exactly when the value was not in the set.  A second insert site, a set that is re-created on
+   the way down, a list that does not start empty or a push that is no longer guarded changes one of these obligations.        *)
 Lemma collector_guards_as_modelled :
   collector_guards =
-  [("collect_clip_paths", ["let Node::Group(ref g) = node"; "!clip_paths.iter().any(|other| Arc::ptr_eq(c, other))";
-                           "let Node::Group(ref g) = node"]);
-   ("collect_masks", ["let Node::Group(ref g) = node"; "!masks.iter().any(|other| Arc::ptr_eq(m, other))";
-                      "let Node::Group(ref g) = node"]);
-   ("collect_filters", ["let Node::Group(ref g) = node"; "!filters.iter().any(|other| Arc::ptr_eq(filter, other))";
-                        "let Node::Group(ref g) = node"]);
-   ("collect_paint_servers", ["!self.linear_gradients.iter().any(|other| Arc::ptr_eq(lg, other))";
-                              "!self.radial_gradients.iter().any(|other| Arc::ptr_eq(rg, other))";
-                              "!self.patterns.iter().any(|other| Arc::ptr_eq(patt, other))"]);
+  [("collect_clip_paths", ["let Node::Group(ref g) = node"; "seen.insert(Arc::as_ptr(c))"; "let Node::Group(ref g) = node"]);
+   ("collect_masks", ["let Node::Group(ref g) = node"; "seen.insert(Arc::as_ptr(m))"; "let Node::Group(ref g) = node"]);
+   ("collect_filters", ["let Node::Group(ref g) = node"; "seen.insert(Arc::as_ptr(filter))"; "let Node::Group(ref g) = node"]);
+   ("collect_paint_servers", ["seen_lg.insert(Arc::as_ptr(lg))"; "seen_rg.insert(Arc::as_ptr(rg))";
+                              "seen_patt.insert(Arc::as_ptr(patt))"]);
    ("loop_over_paint_servers", ["let Some(paint) = paint"])]%string.
 Proof. reflexivity. Qed.
+
+Lemma collector_seen_as_modelled :
+  collector_seen =
+  [("collect_clip_paths", ["fn collect_clip_paths( &self, clip_paths: &mut Vec<Arc<ClipPath>>, seen: &mut HashSet<*const ClipPath>, )";
+                           "if seen.insert(Arc::as_ptr(c))";
+                           "node.subroots(|subroot| subroot.collect_clip_paths(clip_paths, seen))";
+                           "g.collect_clip_paths(clip_paths, seen)"]);
+   ("collect_masks", ["fn collect_masks( &self, masks: &mut Vec<Arc<Mask>>, seen: &mut HashSet<*const Mask>, )";
+                      "if seen.insert(Arc::as_ptr(m))";
+                      "node.subroots(|subroot| subroot.collect_masks(masks, seen))";
+                      "g.collect_masks(masks, seen)"]);
+   ("collect_filters", ["fn collect_filters( &self, filters: &mut Vec<Arc<filter::Filter>>, seen: &mut HashSet<*const filter::Filter>, )";
+                        "if seen.insert(Arc::as_ptr(filter))";
+                        "node.subroots(|subroot| subroot.collect_filters(filters, seen))";
+                        "g.collect_filters(filters, seen)"]);
+   ("collect_paint_servers", ["let mut seen_lg = HashSet::new()"; "let mut seen_rg = HashSet::new()";
+                              "let mut seen_patt = HashSet::new()";
+                              "if seen_lg.insert(Arc::as_ptr(lg))"; "if seen_rg.insert(Arc::as_ptr(rg))";
+                              "if seen_patt.insert(Arc::as_ptr(patt))"]);
+   ("loop_over_paint_servers", [])]%string
+  /\ collector_calls =
+     ["tree.collect_paint_servers();";
+      "tree.root.collect_clip_paths(&mut tree.clip_paths, &mut HashSet::new());";
+      "tree.root.collect_masks(&mut tree.masks, &mut HashSet::new());";
+      "tree.root.collect_filters(&mut tree.filters, &mut HashSet::new());"]%string
+  /\ tree_list_inits =
+     ["clip_paths: Vec::new()"; "filters: Vec::new()"; "linear_gradients: Vec::new()"; "masks: Vec::new()";
+      "patterns: Vec::new()"; "radial_gradients: Vec::new()"]%string.
+Proof. repeat split; reflexivity. Qed.
 
 Section Collector.
   Context {D : Type} (ptr : D -> N) (defs : node -> list D) (sf : bool).
